@@ -95,8 +95,10 @@ func Materialize(roots []*MNode, dir string) error {
 				return errors.Wrapf(err, "lsetxattr %s %s", p, k)
 			}
 		}
-		if err := os.Lchown(p, int(n.Stat.Uid), int(n.Stat.Gid)); err != nil {
-			return err
+		if os.Getuid() == 0 { // an unprivileged materialiser owns everything it creates
+			if err := os.Lchown(p, int(n.Stat.Uid), int(n.Stat.Gid)); err != nil {
+				return err
+			}
 		}
 		if m&os.ModeSymlink == 0 {
 			if err := unix.Chmod(p, um&07777); err != nil {
